@@ -162,6 +162,18 @@ def views(m):
             return ("KeyError",)
     first = (len(m), bool(m), len(m.keys()), len(m.items()), len(m.values()))  # the size is asked for before any keyed view is consulted
     keys = list(m.keys())
+    out = _views(m, first, keys, idx)
+    # a caller is free to edit the list it was handed for a key that is not there (tags = m.getlist("tag"); tags.append(...)):
+    # that list is the caller's, the next caller gets an empty one again
+    try:
+        m.getlist("zz").append("edited-by-caller")
+        m.getlist("absent-key").append("edited-by-caller")
+    except Exception:  # noqa
+        pass
+    return out
+
+
+def _views(m, first, keys, idx):
     return {
         "len_first": first,
         "multi_items": list(m.multi_items()),
@@ -207,12 +219,20 @@ def replay_history(init, hist):
     for i, op in enumerate(hist):
         handed_out = [m.multi_items(), m.getlist("a"), list(m.keys())]  # what was handed out before must not change afterwards
         frozen = [list(x) for x in handed_out]
+        held = (m.keys(), m.values(), m.items())  # views obtained before the operation stay views of the mapping
         ri = apply_impl(m, op)
         rr = apply_ref(l, op, ri)
         if ri != rr:
             return m, l, (i, "result", ri, rr)
         if [list(x) for x in handed_out] != frozen:
             return m, l, (i, "aliasing", [list(x) for x in handed_out], frozen)
+        try:
+            now = (sorted(held[0]), sorted(held[1], key=repr), sorted(held[2], key=repr), len(held[0]), "a" in held[0])
+            fresh_ = (sorted(m.keys()), sorted(m.values(), key=repr), sorted(m.items(), key=repr), len(m.keys()), "a" in m.keys())
+        except Exception as e:  # noqa
+            now, fresh_ = ("raised", type(e).__name__), None
+        if now != fresh_:
+            return m, l, (i, "held-views", now, fresh_)
         va, vb = views(m), ref_views(l)
         if va != vb:
             diff = sorted(k for k in va if va[k] != vb[k])
@@ -400,6 +420,10 @@ def run_shard(desc, tier):
         k0 = QA[desc[1]]
         pairs1 = [(k0, v) for v in QA]
         lists = [[p] for p in pairs1] + [[p, (k2, v2)] for p in pairs1 for k2 in QA for v2 in QA]
+        if desc[1] == 0:
+            # long query mappings: around every power of two up to 2^13 pairs and around every thousand up to 10 000
+            for n in sorted({2 ** k + d for k in range(5, 14) for d in (-1, 0, 1)} | {t + d for t in range(1000, 10001, 1000) for d in (-1, 0, 1)}):
+                lists.append([(f"k{i % 7}", str(i)) for i in range(n)])
         if desc[1] == 0:
             lists.append([])
         for l in lists:
